@@ -150,14 +150,21 @@ impl Sub for ExpectedClaims {
     cl.tag(format!("expectations={}", expect.len().min(5)));
     let mut outcomes = vec![];
     for (i, (t, pl)) in tokens.iter().enumerate() {
-      for (at, e) in &late {
-        if *at == i && i > 0 && parser.check(e).is_ok() {
-          expect.insert(e.key().to_string(), e.expected());
-          cl.tag("expectation-registered-between-parses");
+      for (j, (at, e)) in late.iter().enumerate() {
+        if *at == i && i > 0 {
+          if c.via_extend && j % 2 == 0 && parser.extend_checks(&[(e.key().to_string(), e.expected())]) {
+            expect.insert(e.key().to_string(), e.expected());
+            cl.tag("expectation-registered-between-parses(extend_check_claims)");
+          } else if parser.check(e).is_ok() {
+            expect.insert(e.key().to_string(), e.expected());
+            cl.tag("expectation-registered-between-parses");
+          }
         }
       }
       // payload as the parser sees it (the builder path drops empty keys)
       let seen: Value = if c.via_builder && pl.is_object() { Value::Object(pl.as_object().unwrap().iter().filter(|(k, _)| !k.is_empty()).map(|(k, v)| (k.clone(), v.clone())).collect()) } else { (*pl).clone() };
+      // the payload travels as JSON text: what the parser can see is the value after that round trip
+      let seen: Value = serde_json::from_str(&seen.to_string()).unwrap_or(seen);
       let want = model(&seen, &expect);
       let r = parser.parse(t, &lk);
       let pos = if i == 0 { "first" } else { "later" };
@@ -215,6 +222,7 @@ fn value() -> BoxedStrategy<Value> {
     2 => (-3i64..4).prop_map(|i| json!(i)),
     1 => Just(json!(1.0)),
     1 => Just(json!(1.5)),
+    2 => prop_oneof![Just(json!(3.141526)), Just(json!(0.1)), Just(json!(0.30000000000000004)), Just(json!(2.5e-7)), Just(json!(123456.789)), (1i64..1_000_000, 1u32..9).prop_map(|(m, d)| json!(format!("{}e-{}", m, d).parse::<f64>().unwrap()))],
     1 => any::<bool>().prop_map(Value::Bool),
     1 => Just(Value::Null),
     1 => Just(json!([1, 2])),
@@ -264,7 +272,7 @@ fn typed(key: &str, v: &Value, form: u8) -> ClaimSpec {
 
 fn case(proto: Proto, layer: Layer) -> BoxedStrategy<ExpectCase> {
   // base claim set S, expectations derived from it, then per-token perturbations of S
-  (gen::bytes32(), vec((key(), value()), 0..5), vec((any::<u16>(), 0u8..9, value(), any::<u8>()), 0..4), vec((0u8..6, any::<u16>(), value()), 1..=6), any::<bool>(), vec((1u8..6, any::<u16>(), 0u8..9, value(), any::<u8>()), 0..3), any::<bool>())
+  (gen::bytes32(), vec((key(), value()), 0..5), vec((any::<u16>(), 0u8..10, value(), any::<u8>()), 0..4), vec((0u8..6, any::<u16>(), value()), 1..=6), any::<bool>(), vec((1u8..6, any::<u16>(), 0u8..10, value(), any::<u8>()), 0..3), any::<bool>())
     .prop_map(move |(seed, base, exp_rel, perturb, via_builder, late_rel, via_extend)| {
       let base_obj: serde_json::Map<String, Value> = base.iter().cloned().collect();
       let base_keys: Vec<String> = base_obj.keys().cloned().collect();
@@ -280,6 +288,13 @@ fn case(proto: Proto, layer: Layer) -> BoxedStrategy<ExpectCase> {
           4 => typed(&mutate_key(&k, *form), &cur, *form),                      // key one character off
           5 => typed(KEYS[pick(*ki, KEYS.len())], v, *form),                    // possibly absent key
           6 => typed(&k, &Value::Null, *form),                                  // expected null
+          9 => match cur.as_f64() {                                             // a float one or two ulp away
+            Some(f) if cur.is_f64() && f.is_finite() && f != 0.0 => {
+              let n = f64::from_bits(f.to_bits().wrapping_add(1 + (*form as u64 % 2)));
+              if n.is_finite() { typed(&k, &json!(n), *form) } else { typed(&k, &cur, *form) }
+            }
+            _ => typed(&k, &json!(0.1 + 0.2), *form),
+          },
           8 => match &cur {                                                     // same text, other JSON type
             Value::Number(n) => typed(&k, &json!(n.to_string()), *form),
             Value::Bool(b) => typed(&k, &json!(b.to_string()), *form),
